@@ -130,7 +130,7 @@ PROPS["C06"] = {
     "exhaustive_flags": ["fixpoint: frontier emptied under the length horizon", "no state cap hit"],
     "rule": "E1 explicit-state model checking: breadth-first search whose transition function applies the real edit (push, extend x2, append, prepend, insert at every position, remove in 11 RangeBounds forms for every in-bounds (a,b), truncate to every n, clear) to a clone of the real Seq and the same edit to a Vec model; states deduplicated on (symbols, raw words, internal head); invariant and witnesses checked after every transition. Three explorations per codec: fixpoint under a length horizon from 3 seed sets, bounded depth from seeds of every word-boundary length (plain and offset-copied), and a stateless (no deduplication) run",
     "bound": {"quick": "fixpoint: length horizon 5, 2 pushed symbols, 9 argument windows over a 4-symbol donor; boundary: depth 2 from every WB(2 words) length x {plain, offset-copied}, arguments at ends/word boundaries; stateless depth 2",
-              "thorough": "fixpoint: length horizon 7, 3 pushed symbols; boundary: depth 2 from WB(3 words), depth 3 from the exact word-boundary seeds; stateless depth 3"},
+              "thorough": "fixpoint: length horizon 6 from 3 seed sets and 7 from the empty sequence, 3 pushed symbols; boundary: depth 2 from WB(3 words), depth 3 from the exact word-boundary seeds; stateless depth 3"},
     "assumptions": COMMON_ASSUME + ["state merging: every bitvec operation used by the edit methods is a function of (head, length, live bits, and at most the raw words); the key includes all of these, and the stateless run repeats the alphabet without merging",
         "edit arguments are in bounds (the property excludes out-of-range positions)", "capacity is not observed"],
     "technique": "explicit-state model checking (BFS with canonical state keys and parent pointers) of the real Seq edit operations against a Vec reference model; every explored trace is executed on the implementation",
